@@ -113,6 +113,14 @@ class SimLoop(asyncio.BaseEventLoop):
         heapq.heappush(self._scheduled, t)
         return t
 
+    def create_task(self, coro, *, name=None, context=None):
+        # strong reference until teardown: a crashed incarnation's suspended tasks must not be
+        # garbage-collected mid-run (closing a coroutine runs its finally blocks: a dead node would
+        # send its StopOffer, at a moment chosen by the garbage collector)
+        task = super().create_task(coro, name=name, context=context)
+        self.sim.keep.append(task)
+        return task
+
     # -- selector stand-ins
     def _process_events(self, event_list):
         pass
@@ -497,10 +505,7 @@ class Sim:
         self.events.clear()
         self.tx_hooks = [_blackhole]
         self.net = _NullNet()
-        try:
-            tasks = [t for t in asyncio.all_tasks(lp)]
-        except RuntimeError:
-            tasks = []
+        tasks = [t for t in self.keep if isinstance(t, asyncio.Task) and not t.done()]
         n0 = len(self.log)
         for t in tasks:
             t._log_destroy_pending = False
